@@ -188,13 +188,17 @@ LoadStatus DepsLog::Load(const string& path, State* state, string* err) {
 
   long offset = ftell(f);
   bool read_failed = false;
+  bool torn_header = false;
   int unique_dep_record_count = 0;
   int total_dep_record_count = 0;
   for (;;) {
     unsigned size;
-    if (fread(&size, sizeof(size), 1, f) < 1) {
+    size_t header_bytes = fread(&size, 1, sizeof(size), f);
+    if (header_bytes < sizeof(size)) {
       if (!feof(f))
         read_failed = true;
+      else if (header_bytes > 0)
+        torn_header = true;
       break;
     }
     bool is_deps = (size >> 31) != 0;
@@ -291,6 +295,12 @@ LoadStatus DepsLog::Load(const string& path, State* state, string* err) {
   }
 
   fclose(f);
+
+  // A partial record header at the end of the file is a torn write.  Cut it
+  // off, otherwise the next session would append behind the stray bytes and
+  // everything it records would be discarded by the load after that.
+  if (torn_header && !Truncate(path, offset, err))
+    return LOAD_ERROR;
 
   // Rebuild the log if there are too many dead records.
   int kMinCompactionEntryCount = 1000;
